@@ -32,7 +32,7 @@ def P(pid, rules, technique, decides, not_decided, assumptions=(),
     }
 
 
-P("C01", ["R08", "R09", "R10", "R11", "R12", "R13c", "R17", "R07"],
+P("C01", ["R08", "R09", "R10", "R11", "R12", "R13c", "R17", "R07", "R34"],
   "typestate abstract interpretation (dirty/clean fields), carry-loop "
   "symbolic agreement, unit-of-measure inference",
   "R08 in TimePoint.__add__ every incremented time/day field is followed by "
@@ -55,7 +55,7 @@ P("C01", ["R08", "R09", "R10", "R11", "R12", "R13c", "R17", "R07"],
   ["unit declarations of sa/rules/scale.py (slot -> unit, radix -> ratio), "
    "printed with each obligation"])
 
-P("C02", ["R14", "R15", "R16", "R12", "R08"],
+P("C02", ["R14", "R15", "R16", "R12", "R08", "R09", "R10"],
   "def-use derivation of comparison-key operands, operator routing checks",
   "R15 every operand whose date/time fields feed the lexicographic key of "
   "_cmp, the hashed tuple of __hash__ and the field-wise difference of "
@@ -90,7 +90,7 @@ P("C03", ["R13ab", "R11", "R04", "R07", "R12"],
   "cycle is the right tool and is outside this family.",
   [], ["definition table MODE_DEF (from the property text)"])
 
-P("C04", ["R12", "R14", "R15", "R32", "R17", "R08"],
+P("C04", ["R12", "R14", "R15", "R32", "R17", "R08", "R09", "R10"],
   "unit-of-measure inference, def-use derivation, order-agreement checks",
   "R12 the Duration returned by TimePoint - TimePoint is built from "
   "days/hours/minutes/seconds keywords only, each fed a value of that "
@@ -103,7 +103,7 @@ P("C04", ["R12", "R14", "R15", "R32", "R17", "R08"],
   "get_days_in_year_range) and the round-trip identities.",
   [], [])
 
-P("C05", ["R08", "R10", "R11", "R13c", "R13ab", "R09"],
+P("C05", ["R08", "R10", "R11", "R13c", "R13ab", "R09", "R34"],
   "typestate abstract interpretation with clamp/wrap idioms, field/length "
   "agreement",
   "R08 in add_months every single month step is followed by the clamp "
@@ -120,7 +120,7 @@ P("C05", ["R08", "R10", "R11", "R13c", "R13ab", "R09"],
   [], [])
 
 P("C06", ["R14", "R13c", "R08", "R09", "R10", "R11", "R12", "R15", "R22",
-          "R26", "R17"],
+          "R26", "R17", "R38", "R34"],
   "structural conversion-path checks, typestate, sign-domain evaluation",
   "R14 every converting path of to_time_zone shifts by (destination - own "
   "offset) - orientation cross-checked against get_time_zone_offset - and "
@@ -138,7 +138,7 @@ P("C06", ["R14", "R13c", "R08", "R09", "R10", "R11", "R12", "R15", "R22",
   "of C01 and the comparison of C02).",
   [], [])
 
-P("C07", ["R23", "R24", "R25", "R26", "R12"],
+P("C07", ["R23", "R24", "R25", "R26", "R12", "R36", "R37", "R38"],
   "constant folding / partial evaluation of the parser tables, regex-AST "
   "shape intersection",
   "R23 every translate row agrees with itself (one named group, capture "
@@ -165,7 +165,7 @@ P("C07", ["R23", "R24", "R25", "R26", "R12"],
   ["token -> field oracle transcribed from the README syntax tables (about "
    "20 entries, sa/rules/tablerules.py)"])
 
-P("C08", ["R24", "R23", "R14", "R26"],
+P("C08", ["R24", "R23", "R14", "R26", "R35", "R37", "R38"],
   "path enumeration of the default dump format, folded table agreement",
   "R24 each of the 24 strings _get_dump_format can return (4 time shapes x "
   "2 zone shapes x 3 date tails, enumerated over its paths) is an extended "
@@ -179,7 +179,7 @@ P("C08", ["R24", "R23", "R14", "R26"],
   "equality after the 6-digit float truncation; custom formats in general.",
   [], [])
 
-P("C09", ["R20", "R21", "R22", "R10", "R11", "R23", "R31", "R33", "R12"],
+P("C09", ["R20", "R21", "R22", "R10", "R11", "R23", "R31", "R33", "R12", "R36"],
   "call-graph reachability of raise sites, must-pass-through analysis, "
   "bound-kind checks, regex star height",
   "R21 with both bypass flags off every exit of TimePoint.__init__ has "
@@ -293,7 +293,7 @@ P("C15", ["R04", "R05", "R06", "R07", "R30", "R03", "R12"],
   ["definition table MODE_DEF in sa/rules/calendar_mode.py (from the "
    "property text)"])
 
-P("C16", ["R01", "R02", "R03", "R17", "R21"],
+P("C16", ["R01", "R02", "R03", "R17", "R21", "R37"],
   "flow-sensitive ownership (fresh/receiver/param/shared) abstract "
   "interpretation with inter-procedural summaries",
   "(structural, in full up to the assumptions) R01 every store to a slot "
